@@ -367,7 +367,7 @@ static void main_case(int mode) {
       if (cost <= 16) break;
       if (vals[i].type == LP_VALUE_ALGEBRAIC && vals[i].value.a.f) { lp_value_destruct(&vals[i]); val_rat(&vals[i], rnd_in(-3, 3), 1 + rnd(2)); replaced = 1; }
     } }
-  if (T && !replaced && chance(30)) {
+  if (T && !replaced && kind >= 1 && kind <= 5 && chance(30)) {      /* only the kinds whose T really vanishes at the values */
     /* two (or three) leading coefficients in y that vanish under the assignment: T*y^6 + c*T*y^5 (+ T*y^7) + p
        (they cost the library nothing: it drops them before eliminating) */
     lp_polynomial_t* top = P_add(P_mul(lp_polynomial_new_copy(T), P_var(3, 6)), P_scale(P_mul(lp_polynomial_new_copy(T), P_var(3, 5)), rnd_in(1, 3)));
